@@ -206,10 +206,10 @@ type schemaField struct {
 	typ  string // num str bool null arr-str arr-num obj arr-obj
 }
 
-func F(n string) *QPath            { return &QPath{Kind: "F", Name: n} }
-func D(p *QPath, n string) *QPath  { return &QPath{Kind: "D", P: p, Name: n} }
-func I(p *QPath, i string) *QPath  { return &QPath{Kind: "I", P: p, Name: i} }
-func L(p *QPath) *QPath            { return &QPath{Kind: "L", P: p} }
+func F(n string) *QPath           { return &QPath{Kind: "F", Name: n} }
+func D(p *QPath, n string) *QPath { return &QPath{Kind: "D", P: p, Name: n} }
+func I(p *QPath, i string) *QPath { return &QPath{Kind: "I", P: p, Name: i} }
+func L(p *QPath) *QPath           { return &QPath{Kind: "L", P: p} }
 
 var schema = []schemaField{
 	{F("a"), "num"}, {F("b"), "num"}, {F("age"), "num"}, {F("s"), "str"}, {F("name"), "str"}, {F("flag"), "bool"}, {F("nul"), "null"},
